@@ -680,7 +680,7 @@ func runC13(e *env) {
 		c13ReplayRun(e)
 		return
 	}
-	n := 800 * e.scale
+	n := 700 * e.scale
 	var batch []c13Job
 	var batchFirst []*c13Obs
 	flush := func() {
